@@ -285,8 +285,20 @@ func (st *State) load(p *Val, t types.Type) *Val {
 			key := "V:" + p.A.Key
 			if s == SIface && types.Identical(t, types.Universe.Lookup("error").Type()) {
 				key = "V:err:" + p.A.Key
+				_, seen := st.heap[key]
 				h := st.heapGet(key, s)
-				st.assume(not(eq(h, "iface_nil")))
+				if !seen && !st.useOld {
+					st.assume(not(eq(h, "iface_nil")))
+					// sentinel errors exist before the call: distinct from every error created on this path
+					for _, fe := range st.freshErrs {
+						st.assume(not(eq(h, fe)))
+					}
+					for k2, v2 := range st.heap {
+						if strings.HasPrefix(k2, "V:err:") && k2 != key {
+							st.assume(not(eq(h, v2)))
+						}
+					}
+				}
 				return &Val{T: t, S: s, Tm: h}
 			}
 			h := st.heapGet(key, s)
